@@ -79,6 +79,28 @@ fn one<T: Real>(kind: Kind, n: usize, rng: &mut Rng, rep: &mut Report) {
     }
 }
 
+/// the property's range is "all n up to 2^22": the planners' heuristic tables branch on the exponents of 2 and 3, so every
+/// 2^a * 3^b (and those times 5, 7, 11) up to 2^22 beyond the swept range is planned AND constructed in both directions
+/// and both planning orders (no processing: construction already runs every constructor assert and the butterfly tables)
+fn construct_only<T: Real>(kind: Kind, n: usize, rep: &mut Report) {
+    for fwd_first in [(n / 7) % 2 == 0] {
+        rep.evaluations += 1;
+        rep.nontrivial += 1;
+        let tag = format!("{}/{}/n={}/{}", kind.name(), T::NAME, n, if fwd_first { "plan-fwd-first" } else { "plan-inv-first" });
+        let r = catch(|| {
+            let mut p = AnyPlanner::<T>::new(kind).expect("planner unavailable");
+            let (a, b) = if fwd_first { (FftDirection::Forward, FftDirection::Inverse) } else { (FftDirection::Inverse, FftDirection::Forward) };
+            let f = p.plan(n, a);
+            let g = p.plan(n, b);
+            assert!(f.len() == n && g.len() == n, "wrong length");
+            assert!(f.fft_direction() == a && g.fft_direction() == b, "direction mix-up");
+        });
+        if let Err(e) = r {
+            rep.fail(format!("panic {} (construction only)", tag), e);
+        }
+    }
+}
+
 pub fn run(args: &[String]) {
     let hi: usize = args[0].parse().unwrap();
     let nstruct: usize = args[1].parse().unwrap();
@@ -88,6 +110,36 @@ pub fn run(args: &[String]) {
     ns.extend(crate::k1::structured(seed, nstruct, max_bits).into_iter().filter(|&n| n >= 1));
     ns.extend(crate::util::ANCHOR_LENS.iter().copied().filter(|&n| (n as u64) < (1u64 << max_bits)));
     let shared = Shared::new();
+    {
+        let mut grid: Vec<usize> = vec![];
+        let mut p2 = 1usize;
+        for _a in 0..23 {
+            let mut v = p2;
+            for _b in 0..15 {
+                for m in [1usize, 5, 7, 11] {
+                    let n = v * m;
+                    if n >= hi && n <= (1usize << 22) {
+                        grid.push(n);
+                    }
+                }
+                v *= 3;
+                if v > (1usize << 22) {
+                    break;
+                }
+            }
+            p2 *= 2;
+        }
+        grid.sort();
+        grid.dedup();
+        grid.par_iter().for_each(|&n| {
+            let mut rep = Report::default();
+            for kind in avail() {
+                construct_only::<f32>(kind, n, &mut rep);
+                construct_only::<f64>(kind, n, &mut rep);
+            }
+            shared.merge(rep);
+        });
+    }
     ns.par_iter().for_each(|&n| {
         let mut rep = Report::default();
         let mut rng = Rng::new(seed ^ (n as u64).wrapping_mul(31));
